@@ -477,6 +477,7 @@ theorem step_inv (s : St) (op : Op) (h : Inv s) : Inv (step s op) := by
     · rename_i t k r hpc; exact inv_C s t k r h hpc
     · exact h
   | exhaust => exact inv_exhaust s h
+  | setWaker w => exact ⟨h.i1, h.tok, h.armedEmpty, h.absentClean, h.outPc⟩
 
 theorem inv_init : Inv ({} : St) := by
   refine ⟨?_, ?_, ?_, ?_, ?_⟩ <;> simp [outKey]
